@@ -688,7 +688,7 @@ func (rc *raftNode) beginSnapshot(snapTerm uint64, snapi uint64, confState raftp
 		rc.Infof("snapshot data : %v\n", string(data))
 		rc.Infof("create snapshot with conf : %v\n", confState)
 		// now we can do the actually snapshot for copy
-		verifPoint("snap.beforeCreate")
+		rc.verifPoint("snap.beforeCreate")
 		snap, err := rc.raftStorage.CreateSnapshot(snapi, &confState, data)
 		if err != nil {
 			if err == raft.ErrSnapOutOfDate {
@@ -698,18 +698,18 @@ func (rc *raftNode) beginSnapshot(snapTerm uint64, snapi uint64, confState raftp
 			return
 		}
 		// SaveSnap saves the snapshot to file and appends the corresponding WAL entry.
-		verifPoint("snap.beforeSaveSnap")
+		rc.verifPoint("snap.beforeSaveSnap")
 		if err := rc.persistStorage.SaveSnap(snap); err != nil {
 			rc.Errorf("save snapshot at index %v failed: %v", snap.Metadata, err)
 			return
 		}
-		verifPoint("snap.beforeSync")
+		rc.verifPoint("snap.beforeSync")
 		err = rc.persistStorage.Sync()
 		if err != nil {
 			rc.Errorf("failed to sync wal: %s", err)
 			return
 		}
-		verifPoint("snap.beforeRelease")
+		rc.verifPoint("snap.beforeRelease")
 		if err = rc.persistStorage.Release(snap); err != nil {
 			rc.Errorf("failed to release wal: %s", err)
 			return
@@ -717,7 +717,7 @@ func (rc *raftNode) beginSnapshot(snapTerm uint64, snapi uint64, confState raftp
 		// update the latest snapshot index for statemachine
 		rc.ds.UpdateSnapshotState(snap.Metadata.Term, snap.Metadata.Index)
 
-		verifPoint("snap.beforeCompact")
+		rc.verifPoint("snap.beforeCompact")
 		compactIndex := uint64(1)
 		if snapi > uint64(rc.config.SnapCatchup) {
 			compactIndex = snapi - uint64(rc.config.SnapCatchup)
@@ -1014,9 +1014,9 @@ func (rc *raftNode) processReady(rd raft.Ready) {
 	// the entries are applied and acknowledged and before any message carrying
 	// the new commit index leaves; otherwise a crash loses acknowledged writes.
 	persistFirst := raft.IsEmptySnap(rd.Snapshot) && shouldPersistFirst(&rd)
-	verifPoint("raft.ready.begin")
+	rc.verifPoint("raft.ready.begin")
 	if persistFirst {
-		verifPoint("raft.beforePersist")
+		rc.verifPoint("raft.beforePersist")
 		if err := rc.persistRaftState(&rd); err != nil {
 			rc.Errorf("raft save states to disk error: %v", err)
 			go rc.ds.Stop()
@@ -1024,7 +1024,7 @@ func (rc *raftNode) processReady(rd raft.Ready) {
 			return
 		}
 	}
-	verifPoint("raft.beforePublish")
+	rc.verifPoint("raft.beforePublish")
 	processedMsgs, hasRequestSnapMsg := rc.processMessages(rd.Messages)
 	if len(rd.CommittedEntries) > 0 || !raft.IsEmptySnap(rd.Snapshot) || hasRequestSnapMsg {
 		var newPublished uint64
@@ -1065,7 +1065,7 @@ func (rc *raftNode) processReady(rd raft.Ready) {
 		}
 		rc.Infof("raft transfer incoming snapshot done : %v", rd.Snapshot.String())
 	}
-	verifPoint("raft.afterPublish")
+	rc.verifPoint("raft.afterPublish")
 	if isMeNewLeader {
 		rc.transport.Send(processedMsgs)
 	}
@@ -1073,7 +1073,7 @@ func (rc *raftNode) processReady(rd raft.Ready) {
 	start := time.Now()
 	// TODO: save entries, hardstate and snapshot should be atomic, or it may corrupt the raft
 	if !persistFirst {
-		verifPoint("raft.beforePersist")
+		rc.verifPoint("raft.beforePersist")
 		if err := rc.persistRaftState(&rd); err != nil {
 			rc.Errorf("raft save states to disk error: %v", err)
 			go rc.ds.Stop()
@@ -1081,7 +1081,7 @@ func (rc *raftNode) processReady(rd raft.Ready) {
 			return
 		}
 	}
-	verifPoint("raft.afterPersist")
+	rc.verifPoint("raft.afterPersist")
 	cost := time.Since(start)
 	if cost >= raftSlow/2 {
 		rc.Infof("raft persist state slow: %v, cost: %v", len(rd.Entries), cost)
@@ -1099,7 +1099,7 @@ func (rc *raftNode) processReady(rd raft.Ready) {
 		// old data from the WAL. Otherwise could get an error like:
 		// panic: tocommit(107) is out of range [lastIndex(84)]. Was the raft log corrupted, truncated, or lost?
 		// See https://github.com/etcd-io/etcd/issues/10219 for more details.
-		verifPoint("raft.snap.beforeSync")
+		rc.verifPoint("raft.snap.beforeSync")
 		if err := rc.persistStorage.Sync(); err != nil {
 			rc.Errorf("failed to sync Raft snapshot: %s", err)
 			go rc.ds.Stop()
@@ -1115,13 +1115,13 @@ func (rc *raftNode) processReady(rd raft.Ready) {
 				rc.MarkReplayFinished()
 			}
 		}
-		verifPoint("raft.snap.beforeRelease")
+		rc.verifPoint("raft.snap.beforeRelease")
 		if err := rc.persistStorage.Release(rd.Snapshot); err != nil {
 			rc.Errorf("failed to release Raft wal: %s", err)
 		}
 	}
 	cost2 := time.Since(start)
-	verifPoint("raft.beforeAppend")
+	rc.verifPoint("raft.beforeAppend")
 	rc.raftStorage.Append(rd.Entries)
 	cost3 := time.Since(start) - cost2
 	if cost3 > raftSlow/2 {
@@ -1160,7 +1160,7 @@ func (rc *raftNode) processReady(rd raft.Ready) {
 	} else {
 		raftDone <- struct{}{}
 	}
-	verifPoint("raft.beforeAdvance")
+	rc.verifPoint("raft.beforeAdvance")
 	rc.node.Advance(rd)
 }
 
@@ -1194,7 +1194,7 @@ func (rc *raftNode) persistRaftState(rd *raft.Ready) error {
 		// update the latest snapshot index for statemachine
 		rc.ds.UpdateSnapshotState(rd.Snapshot.Metadata.Term, rd.Snapshot.Metadata.Index)
 	}
-	verifPoint("raft.persist.beforeSave")
+	rc.verifPoint("raft.persist.beforeSave")
 	if err := rc.persistStorage.Save(rd.HardState, rd.Entries); err != nil {
 		rc.Errorf("raft save wal error: %v", err)
 		return err
